@@ -4,6 +4,7 @@ import CookModel.Lemmas.ExtLawsAnalysis
 import CookModel.Lemmas.ExtLawsTimer
 import CookModel.Lemmas.ExtLawsAnalysisFull
 import CookModel.Lemmas.ExtLawsEvents
+import CookModel.Lemmas.ExtLawsLocal
 import CookModel.Lemmas.LexLaws
 /-
   C02  Core-syntax recipes parse identically under every extension subset.
@@ -299,6 +300,68 @@ example : C02.env.cs.uws ' ' = true ∧
     UsesNoneInput C02.env.cs C02.coreInput = true ∧
     (pullEvents (α := Rat) C02.env.cs C02.env.ext C02.coreInput).1.toList.all (evConvCore Rat C02.env) = true := by
   decide +kernel
+
+/-! #### Locality: each extension changes only its own construct (parser)
+
+  `AgreeOn G e₁ e₂`: the two extension sets answer alike for every flag of the list `G`.
+  Flags covered at block level here: the eight flags jointly (`C02_parser_flags_only`: no other bit
+  of the raw pattern matters), INLINE_QUANTITIES (`C02_inline_local_parser`: never read by the
+  parser, no trigger pattern needed), MODES (`C02_modes_local`: trigger = a `>> [key]` line, the
+  block may use every other extension's syntax).  For the other flags the per-gate statements are
+  `C02_modifiers_irrelevant` (COMPONENT_MODIFIERS and INTERMEDIATE_PREPARATIONS; trigger: one of
+  `@ & ? + -` after the marker), `C02_alias_irrelevant` (COMPONENT_ALIAS; `|` in the name),
+  `C02_range_irrelevant` (RANGE_VALUES; `-` in the value), `C02_advanced_irrelevant` /
+  `C02_advanced_declines` (ADVANCED_UNITS; value, blank, word without `%`),
+  `C02_timer_time_irrelevant` and `C02_timer_time_noQuantity` (TIMER_REQUIRES_TIME; a timer without
+  quantity); at block level these five are proved jointly (`C02_parser_ext_irrelevant`), the
+  single-flag block-level versions with the other constructs present are not proved. -/
+
+/-- the parser (any block, any events before it) depends on the extension set only through the
+    seven flags it reads: raw patterns that agree on them (for instance patterns that differ in
+    undefined bits, or in one of the two bits of INTERMEDIATE_PREPARATIONS while
+    COMPONENT_MODIFIERS and INTERMEDIATE_PREPARATIONS answer alike) give the same events -/
+theorem C02_parser_flags_only (cs : CharSpec) (e₁ e₂ : Ext) (oldStyle : Bool) (block : List Tok)
+    (evs : Array (Ev α)) (p : Option String) (ha : AgreeOn parserFlags e₁ e₂) :
+    runBlock cs e₁ oldStyle block evs p = runBlock cs e₂ oldStyle block evs p :=
+  runBlock_flags_only cs e₁ e₂ oldStyle block evs p ha
+
+/-- INLINE_QUANTITIES does not touch the parser: two extension sets that differ only in it (they
+    agree on the seven parser flags) give the same event stream on EVERY input -/
+theorem C02_inline_local_parser (cs : CharSpec) (e₁ e₂ : Ext) (input : List Char)
+    (ha : AgreeOn parserFlags e₁ e₂) : pullEvents (α := α) cs e₁ input = pullEvents cs e₂ input :=
+  pullEvents_congr cs e₁ e₂ input (fun _ => true) (by unfold AllBlocksOf; simp)
+    (fun oldStyle b _ evs p => runBlock_flags_only cs e₁ e₂ oldStyle b evs p ha)
+
+/-- MODES changes only `>> [key]` lines: two extension sets that differ only in MODES (they agree
+    on the other six parser flags) give the same events on every block that is not such a line —
+    the block may use modifiers, aliases, ranges, advanced units, timers without quantity -/
+theorem C02_modes_local (cs : CharSpec) (e₁ e₂ : Ext) (oldStyle : Bool) (block : List Tok)
+    (evs : Array (Ev α)) (p : Option String) (ha : AgreeOn parserFlagsNoModes e₁ e₂)
+    (hm : metaKeyCore cs block = true) :
+    runBlock cs e₁ oldStyle block evs p = runBlock cs e₂ oldStyle block evs p :=
+  runBlock_modes_local cs e₁ e₂ oldStyle block evs p ha hm
+
+/-- … and so on a whole input none of whose blocks is a `>> [key]` line -/
+theorem C02_modes_local_input (cs : CharSpec) (e₁ e₂ : Ext) (input : List Char)
+    (ha : AgreeOn parserFlagsNoModes e₁ e₂) (hm : AllBlocksOf cs input (metaKeyCore cs) = true) :
+    pullEvents (α := α) cs e₁ input = pullEvents cs e₂ input :=
+  pullEvents_congr cs e₁ e₂ input (metaKeyCore cs) hm
+    (fun oldStyle b hb evs p => runBlock_modes_local cs e₁ e₂ oldStyle b evs p ha hb)
+
+/-- the hypotheses are satisfiable by sets that really differ: `{MODES}` and `∅` agree on the
+    other six flags; `{INLINE_QUANTITIES}` and `∅` on all seven; the block `@?a|b{1-2}` (modifier,
+    alias, range) is not a `>> [key]` line -/
+example : AgreeOn parserFlagsNoModes ⟨Gen.EXT_MODES⟩ ⟨0⟩ ∧ AgreeOn parserFlags ⟨Gen.EXT_INLINE_QUANTITIES⟩ ⟨0⟩ ∧
+    (⟨Gen.EXT_MODES⟩ : Ext).has Gen.EXT_MODES ≠ (⟨0⟩ : Ext).has Gen.EXT_MODES ∧
+    metaKeyCore toyCharSpec (C02.toks [(.at, ['@']), (.question, ['?']), (.word, ['a']), (.or, ['|']),
+      (.word, ['b']), (.openBrace, ['{']), (.int, ['1']), (.minus, ['-']), (.int, ['2']), (.closeBrace, ['}'])]) = true := by
+  refine ⟨?_, ?_, by decide, by decide⟩
+  · intro g hg
+    simp only [parserFlagsNoModes, List.mem_cons, List.mem_nil_iff, or_false] at hg
+    rcases hg with rfl | rfl | rfl | rfl | rfl | rfl <;> decide
+  · intro g hg
+    simp only [parserFlags, List.mem_cons, List.mem_nil_iff, or_false] at hg
+    rcases hg with rfl | rfl | rfl | rfl | rfl | rfl | rfl <;> decide
 
 /-! ### The converse clause, remaining gates: a disabled extension's syntax is core text -/
 
